@@ -30,6 +30,22 @@ def genericReached (opts : List OptInst) (c : Config) : List Target :=
       (fillLogger .generic_Driver_Logger (afterPass .generic_Driver opts c))) ++ [.channel_Channel]
 
 
+/-- no option fails on any object of the given types: options that would fail only on an object
+that is never built do not count (they are ignored there) -/
+def ValidOn (ts : List Target) (opts : List OptInst) : Prop :=
+  ∀ T ∈ ts, ∀ o ∈ opts, failsOn T o = none
+
+def validOnB (ts : List Target) (opts : List OptInst) : Bool :=
+  ts.all fun T => opts.all fun o => (failsOn T o).isNone
+
+/-- the objects a constructor builds for this option list -/
+def reached (k : Ctor) (opts : List OptInst) (c : Config) : List Target :=
+  match k with
+  | .generic => genericReached opts c
+  | .network => genericReached opts c ++ [.network_Driver]
+  | .netconf => genericReached (opts ++ [netconfConnectionOpt]) c ++ [.netconf_Driver]
+  | .logging => [.logging_Instance]
+
 /-- decidable form of `Compat` (used by the model driver to evaluate the hypothesis per case) -/
 def compatB (a b : OptInst) : Bool :=
   disjointKeys a b &&
